@@ -9,7 +9,7 @@ from mc import seqx
 
 ID = 'C02'
 LEVEL = 'model_checking'
-CASE_TIMEOUT = 1500
+CASE_TIMEOUT = 6000
 BATCH = 1
 RULE = ('one case = one (initial capacity, altitude mode, increments kind) configuration; inside it '
         'ALL histories over {I0,I1,I2,I3,Irest,predict,set_pva A,set_pva B} on a 10-row table with at '
